@@ -83,8 +83,10 @@ def run_graphs(ctx, order, prop_assumptions, small=False):
         "rule": "TLC: every graph over two anchored mappings (<= MaxA / MaxB entries over keys x,y) and a root (<= MaxR entries over x,y,z); entry = "
                 "explicit key with scalar / alias / sequence of aliases, or `<<` with alias / sequences of aliases in both orders; aliases may "
                 "point anywhere (self and mutual cycles through values, sequences, merges). Each graph is decoded 4 ways (built node graph, "
-                "YAML text, Map.UnmarshalYAML, Parse). Non-trivial = graphs with at least one alias or merge; random DAGs of 6-40 nodes with "
-                "back-edges on top.",
+                "YAML text, Map.UnmarshalYAML, Parse), in a worker child process. Plus: an un-anchored mapping C defined inline inside A, an "
+                "ANCHORED SEQUENCE S (defined at a merge in A, aliased from B and R, possibly containing itself), keys in non-canonical YAML "
+                "spellings and alias keys on a third / half of the graphs. Quick replays a seeded sample of 60 000 of the enumerated graphs. "
+                "Non-trivial = graphs with at least one alias or merge; random DAGs of 6-40 nodes with back-edges on top.",
         "exhaustive": True,
         "cyclic_graphs": sum(1 for c in cases if c.get("cyc")) + sum(s.get("cyclic_graphs", 0) for s in s2),
         "trace_events_rejected": len(bad),
